@@ -439,7 +439,10 @@ func freshProcesses(r *ev.Run) {
 			_ = os.WriteFile(filepath.Join(dir, "f.g"), []byte(sc.text), 0o644)
 			cmd := exec.Command(bin, "-out=out", "-verbose", "f.g")
 			cmd.Dir = dir
-			cmd.Env = append(os.Environ(), "NO_COLOR=1", "TERM=dumb")
+			// every run has its own working directory, home, user, temporary directory, time zone and locale: nothing of
+			// the environment may reach the output
+			cmd.Env = append(os.Environ(), "NO_COLOR=1", "TERM=dumb", "HOME="+dir, "TMPDIR="+dir, fmt.Sprintf("USER=user%d", k), fmt.Sprintf("LOGNAME=user%d", k),
+				"TZ="+[]string{"UTC", "Asia/Tokyo", "America/New_York", "Europe/Berlin"}[k%4], "LANG="+[]string{"C", "en_US.UTF-8", "de_DE.UTF-8", "tr_TR.UTF-8"}[k%4], "LC_ALL="+[]string{"C", "en_US.UTF-8", "de_DE.UTF-8", "tr_TR.UTF-8"}[k%4])
 			var so, se strings.Builder
 			cmd.Stdout, cmd.Stderr = &so, &se
 			err := cmd.Run()
